@@ -48,6 +48,15 @@ CLASS_MUTATIONS = [
     ("cl-with-chunked-before", lambda s: s.replace(b"Transfer-Encoding: chunked\r\n", b"Content-Length: 5\r\nTransfer-Encoding: chunked\r\n", 1)),
     ("repeated-cl", lambda s: s.replace(b"Content-Length: 5\r\n", b"Content-Length: 5\r\nContent-Length: 5\r\n", 1)),
     ("repeated-cl-diff", lambda s: s.replace(b"Content-Length: 5\r\n", b"Content-Length: 5\r\nContent-Length: 6\r\n", 1)),
+    # the repeated field in every position and with every value a falsy / special reading could confuse: 0, 00, empty list item
+    ("repeated-cl-zero-first", lambda s: s.replace(b"Content-Length: 5\r\n", b"Content-Length: 0\r\nContent-Length: 5\r\n", 1)),
+    ("repeated-cl-00-first", lambda s: s.replace(b"Content-Length: 5\r\n", b"Content-Length: 00\r\nContent-Length: 5\r\n", 1)),
+    ("repeated-cl-zero-last", lambda s: s.replace(b"Content-Length: 5\r\n", b"Content-Length: 5\r\nContent-Length: 0\r\n", 1)),
+    ("repeated-cl-zero-zero", lambda s: s.replace(b"Content-Length: 5\r\n", b"Content-Length: 0\r\nContent-Length: 0\r\n", 1)),
+    ("repeated-cl-apart", lambda s: s.replace(b"Content-Length: 5\r\n", b"Content-Length: 0\r\nX-Between: 1\r\nContent-Length: 5\r\n", 1)),
+    ("repeated-cl-three", lambda s: s.replace(b"Content-Length: 5\r\n", b"Content-Length: 0\r\nContent-Length: 0\r\nContent-Length: 5\r\n", 1)),
+    ("repeated-te-empty-first", lambda s: s.replace(b"Transfer-Encoding: chunked\r\n", b"Transfer-Encoding:\r\nTransfer-Encoding: chunked\r\n", 1)),
+    ("cl-zero-with-chunked", lambda s: s.replace(b"Transfer-Encoding: chunked\r\n", b"Content-Length: 0\r\nTransfer-Encoding: chunked\r\n", 1)),
     ("cl-list", lambda s: s.replace(b"Content-Length: 5", b"Content-Length: 5, 5", 1)),
     ("cl-plus", lambda s: s.replace(b"Content-Length: 5", b"Content-Length: +5", 1)),
     ("cl-hex", lambda s: s.replace(b"Content-Length: 5", b"Content-Length: 0x5", 1)),
